@@ -46,6 +46,19 @@ impl ValTable {
                 }
             }
         }
+        // a counter document with a padding member: {"n":N,"p":"aaa...a"}
+        if bytes.len() > 16 && bytes.starts_with(b"{\"n\":") && bytes.ends_with(b"\"}") {
+            if let Some(c) = bytes.iter().position(|b| *b == b',') {
+                if c <= 8 && bytes[c..].starts_with(b",\"p\":\"") {
+                    let pad = &bytes[c + 6..bytes.len() - 2];
+                    if let Ok(n) = std::str::from_utf8(&bytes[5..c]).unwrap_or("x").parse::<u32>() {
+                        if n < 1000 && pad.iter().all(|b| *b == b'a') {
+                            return json!({"k": "d", "id": pad.len(), "len": bytes.len(), "n": n});
+                        }
+                    }
+                }
+            }
+        }
         let next = self.ids.len() as u64 + 1;
         let id = *self.ids.entry(bytes.to_vec()).or_insert(next);
         json!({"k": "b", "id": id, "len": bytes.len(), "n": 0})
@@ -200,7 +213,7 @@ pub fn main(args: &[String]) -> i32 {
     for step in 0..steps {
         crate::util::watchdog::beat(&format!("step {step} after {} events", cx.events));
         let ki = match (forced_key, forced.front()) {
-            (Some(fk), Some((100 | 101 | 103 | 104 | 105, _))) => fk,
+            (Some(fk), Some((100 | 101 | 103 | 104 | 105 | 106, _))) => fk,
             _ => rng.random_range(0..keys.len()),
         };
         let key = keys[ki].clone();
@@ -235,6 +248,15 @@ pub fn main(args: &[String]) -> i32 {
             0 | 1 => (rng.random_range(-5i64..50)).to_le_bytes().to_vec(),
             2 | 3 => format!("{{\"n\":{}}}", rng.random_range(0..9)).into_bytes(),
             4 if rng.random_range(0..6) == 0 => Vec::new(),
+            // a counter document padded up to the value size limit (exactly, or a few bytes short): a later patch that
+            // writes a longer number would cross it (memory mode only: such a value does not fit the small test devices)
+            6 if !cfg.pers && rng.random_range(0..2) == 0 => {
+                let total = 4 * 1024 * 1024 - [0usize, 1, 2, 3][rng.random_range(0..4)];
+                let mut v = format!("{{\"n\":{},\"p\":\"", rng.random_range(0..9)).into_bytes();
+                v.resize(total - 2, b'a');
+                v.extend_from_slice(b"\"}");
+                v
+            }
             5 if rng.random_range(0..60) == 0 => vec![7u8; 4 * 1024 * 1024 + 1],
             _ => {
                 let max = if cfg.pers { 9000 } else { 80 };
@@ -252,6 +274,7 @@ pub fn main(args: &[String]) -> i32 {
         let mut auto = auto;
         let mut ts_val = ts_val;
         let mut forced_lim: Option<usize> = None;
+        let mut long_set = false;
         // targeted burst: short-lived keys, time passes, small-limit scans and reads
         if forced.is_empty() && cfg.ttl && rng.random_range(0..(if bias == "ttl" || bias == "range" { 15 } else { 45 })) == 0 {
             for _ in 0..rng.random_range(1..4) {
@@ -327,6 +350,14 @@ pub fn main(args: &[String]) -> i32 {
             if fop == 105 {
                 op = 4;
             }
+            if fop == 106 {
+                // a patch that writes a longer number into the document just stored at the size limit
+                op = 13;
+                long_set = true;
+                ts_choice = None;
+                auto = true;
+                ts_val = 0;
+            }
             if fop == 3 {
                 ttl = fttl;
                 ts_choice = None;
@@ -357,6 +388,11 @@ pub fn main(args: &[String]) -> i32 {
                     (false, false, false) => store.insert_with_timestamp(&key, &val, ts_choice),
                     (false, false, true) => store.insert(&key, &val),
                 };
+                if r.is_ok() && val.len() > 4_000_000 && val.starts_with(b"{\"n\":") && forced.is_empty() {
+                    forced_key = Some(ki);
+                    forced.push_back((106, 0));
+                    forced.push_back((105, 0));
+                }
                 ev["v"] = cx.vals.val(&val);
                 ev["ttl"] = json!(limbs(if with_ttl { ttl } else { 0 }));
                 ev["wttl"] = json!(with_ttl);
@@ -411,7 +447,7 @@ pub fn main(args: &[String]) -> i32 {
             }
             13 | 14 => {
                 ev = call_event("patch", k);
-                let set = rng.random_range(0..9);
+                let set = if long_set || rng.random_range(0..4) == 0 { [10, 55, 100, 999][rng.random_range(0..4)] } else { rng.random_range(0..9) };
                 let (pt, patch) = if rng.random_bool(0.4) {
                     let t = rng.random_range(0..9);
                     (t as i64, format!("[{{\"op\":\"test\",\"path\":\"/n\",\"value\":{t}}},{{\"op\":\"replace\",\"path\":\"/n\",\"value\":{set}}}]"))
